@@ -767,6 +767,11 @@ class VenomCompiler:
             assert isinstance(label, IRLabel)  # help mypy
             assembly.extend(_ofst(_as_asm_symbol(label), ofst.value))
             stack.push(inst.output)
+            if inst.output not in next_liveness:
+                # an `offset` whose result is never used survives only when
+                # dead-code removal is disabled; pop it like any other dead
+                # output (see the phi case above)
+                self.popmany(assembly, [inst.output], stack)
             return apply_line_numbers(inst, assembly)
 
         # Step 2: Emit instruction's input operands
